@@ -81,9 +81,11 @@ def pub_from_blob(kind, blob, size):
 
 def verify(pub, sig, msg, scheme):
     """scheme: 'pkcs1-sha256' | 'pss-sha256' | 'pss-sha384' | 'pss-sha512' | 'ecdsa-sha256' | 'ecdsa-sha384' | 'ecdsa-sha512'."""
-    if pub is None:
+    if pub is None or scheme.count("-") != 1:
         return False
     pad, h = scheme.split("-")
+    if h not in HASHES:
+        return False
     try:
         if pub.kind == "rsa":
             if pad == "pkcs1":
@@ -256,6 +258,8 @@ def walk_srk_table(w):
         if w.err:
             return {"err": w.err}
         kind, size = SRK_KEYSIZE.get(ksz, (None, 0))
+        if kind is None or salg not in SRK_SIGN or halg not in SRK_HASH:
+            return {"err": f"SRK record {len(recs)}: unknown algorithm / key size ({salg:#x}, {halg}, {ksz})"}
         pub = None
         consistent = False
         if kind == "rsa":
@@ -401,6 +405,57 @@ class Device:
         if dc["nkeys"] == 1:
             return True  # the hash IS the hash of the key
         return dc["table"][dc["used"]] == ecc_key_hash(dc["rot_pub"])
+
+
+# ------------------------------------------------------------------ the intruder's own tools (he does not use SPSDK)
+_priv_cache = {}
+
+
+def load_priv(path):
+    if path not in _priv_cache:
+        data = open(path, "rb").read()
+        try:
+            _priv_cache[path] = serialization.load_pem_private_key(data, None, unsafe_skip_rsa_key_validation=True)
+        except TypeError:  # older cryptography
+            _priv_cache[path] = serialization.load_pem_private_key(data, None)
+    return _priv_cache[path]
+
+
+def sign(priv, msg, scheme):
+    pad, h = scheme.split("-")
+    if pad == "pkcs1":
+        return priv.sign(msg, padding.PKCS1v15(), HASHES[h]())
+    if pad == "pss":
+        return priv.sign(msg, padding.PSS(mgf=padding.MGF1(HASHES[h]()), salt_length=padding.PSS.DIGEST_LENGTH), HASHES[h]())
+    size = (priv.curve.key_size + 7) // 8
+    r, s = autils.decode_dss_signature(priv.sign(msg, ec.ECDSA(HASHES[h]())))
+    return r.to_bytes(size, "big") + s.to_bytes(size, "big")
+
+
+def forge_dc(ele, ver, socc, uuid, socu, vu, beacon, rot_pubs, used, dck_pub, rot_priv):
+    """A credential made with the intruder's own tools from the layouts of DatLayout.tla, signed with a key HE owns."""
+    kind = ver_kind(ver)
+    head = struct.pack("<2HL", ver[0], ver[1], socc) + uuid
+    cc = struct.pack("<3L", socu, vu, beacon)
+    n = len(rot_pubs)
+    if ele:
+        dck = dck_pub.a.to_bytes(dck_pub.size, "big") + dck_pub.b.to_bytes(3, "big") if kind == "rsa" else dck_pub.blob()
+        body = head + cc + struct.pack("<L", 0x80000000 | (used << 8) | (n << 4)) + ref_srk_table(rot_pubs) + dck
+        scheme = ("pss-sha256" if kind == "rsa" else "ecdsa-" + ECC_HASH[rot_pubs[used].size])
+    elif kind == "rsa":
+        meta = b"".join(rsa_key_hash(p) for p in rot_pubs) + bytes(32 * (4 - n))
+        body = head + meta + dck_pub.blob() + cc + rot_pubs[used].blob()
+        scheme = "pkcs1-sha256"
+    else:
+        tbl = b"".join(ecc_key_hash(p) for p in rot_pubs) if n > 1 else b""
+        body = head + cc + struct.pack("<L", 0x80000000 | (used << 8) | (n << 4)) + tbl + rot_pubs[used].blob() + dck_pub.blob()
+        scheme = "ecdsa-" + ECC_HASH[rot_pubs[used].size]
+    return body + sign(rot_priv, body, scheme)
+
+
+def forge_dar(dc_bytes, beacon, uuid, challenge, binds, dck_priv, scheme):
+    body = dc_bytes + struct.pack("<L", beacon) + (uuid if binds else b"")
+    return body + sign(dck_priv, body + challenge, scheme)
 
 
 # ------------------------------------------------------------------ anchors
